@@ -1319,6 +1319,19 @@ def _run(ctx):
         if not all(F(aa[j]) <= F(X[i, j]) <= F(bb[j]) for i in range(n) for j in range(d)):
             ctx.spec_fail("qnwequi", "qnwequi node outside the box", rp)
         cases.append(Case("C08 equiw n=%d a=%s b=%s" % (n, fxs(aa), fxs(bb)), fxs(w), nontrivial=(n >= 2), tag="equiw"))
+        if kind in "NWH":
+            # the fractional parts exactly as the routine forms them; the model maps them into the box
+            ii = np.arange(1, n + 1, dtype=np.int64)
+            if kind == "N":
+                jj = 2.0 ** (np.arange(1, d + 1) / (d + 1))
+                T_ = np.outer(ii, jj)
+            else:
+                import sympy as sym
+                jj = np.sqrt(np.array(list(sym.primerange(0, 7920))))[:d]
+                T_ = np.outer(ii, jj) if kind == "W" else np.outer(ii * (ii + 1) / 2, jj)
+            T_ = T_ - Q.fix(T_)
+            cases.append(Case("C08 equinodes a=%s b=%s T=%s" % (fxs(aa), fxs(bb), fxm(T_)), fxm(X), nontrivial=(n >= 2),
+                              tag="equinodes"))
 
     for rep in range(ctx.n(24, 300)):
         kind = ["lege", "cheb", "trap", "simp", "N", "W", "H", "R"][rep % 8]
